@@ -84,6 +84,11 @@ func genGuards() {
 		decSite("ebcdic", "encoding/ebcdic.go", "ebcdicEncoder", "src"),
 		decSite("ebcdic1047", "encoding/ebcdic1047.go", "ebcdic1047Encoder", "data"),
 	}
+	enc = append(enc, guardSite{Name: "berTag_Decode", File: "encoding/bertlv.go", Recv: "berTLVEncoderTag", Func: "Decode",
+		Sig:    []string{"", "data", "length"},
+		Params: []string{"firstByte", "b", "more:Bool"},
+		Map: map[string]string{"bits.TrailingZeros8(^firstByte)": "(tz8 (255 - firstByte))", "bits.LeadingZeros8(b)": "(lz8 b)",
+			"shouldReadSubsequentByte": "more", "b": "b", "firstByte": "firstByte"}})
 	genGuardFile("GuardsEnc.lean", enc)
 
 	comp := []guardSite{
